@@ -149,7 +149,9 @@ class C06(XsProp):
                     bad = 'offset %s outside the input %d..%d after `%s`' % (cu[2], cu[0], cu[1], op)
                     break
                 if res != 'ok':
-                    if cu != prev_cur and word not in ('open-bitstr',):
+                    if word == 'close-bitstr' and stash and not res.startswith('ELimit'):
+                        bad = '`close-bitstr` failed (%s) although the input %s was suspended by an earlier `open-bitstr`' % (res, stash[-1])
+                    elif cu != prev_cur and word not in ('open-bitstr',):
                         bad = 'failing `%s` (%s) changed the cursor %s -> %s' % (op, res, prev_cur, cu)
                     elif not (len(sk) <= len(prev_stack) + (0 if word != 'open-bitstr' else 0) and prev_stack[:len(sk)] == sk):
                         # arguments pushed by the same source before the failing word are allowed to remain
